@@ -314,7 +314,9 @@ def universe(draw, m: SidModel, types: Optional[List[str]] = None, min_size: int
             if fk:
                 k = fk[-1]
                 g = dict(f)
-                g[k] = f[k] + draw(st.sampled_from(["_", "-", "."])) + draw(st.sampled_from(["y", "w", "x"]))
+                tok, sp = draw(st.sampled_from(["y", "w", "x"])), draw(st.sampled_from(["_", "-", "."]))
+                # ... or is extended at the FRONT ('x' and 'y_x': ambiguous where a joined name is globbed from the left)
+                g[k] = (tok + sp + f[k]) if draw(st.integers(0, 2)) == 0 else (f[k] + sp + tok)
                 key = (t, tuple(g.items()))
                 if key not in seen:
                     seen.add(key)
